@@ -18,7 +18,7 @@ use std::cell::RefCell;
 use std::collections::{BTreeMap, HashMap};
 use std::rc::Rc;
 use vcore::rng::{Rng, fnv};
-use vcore::run::{Finish, Run, Tier, par_range};
+use vcore::run::{Finish, Run, par_range};
 use vcore::ty::{self, TSer, TVal, Ty, TyCfg, TyGrammar};
 use vcore::tygen::{self, Opt, Rt, Shrinker, Stage};
 
@@ -290,6 +290,7 @@ fn special_strings() -> Vec<String> {
         format!("{}\rmore text after a carriage return\n", "word ".repeat(24)),
         "k".repeat(LONG_WORD_LEN),
         "plain but long enough to be folded when block scalars are preferred, more than eighty characters".into(),
+        format!("  indented first line\n{}", "then a long second line ".repeat(5)),
     ]
 }
 
@@ -335,29 +336,29 @@ fn main() {
     let g = TyGrammar::full();
     let by_size = ty::small_tys_by_size(max_nodes, &g);
     let opts = all_opts();
-    // option subset for the largest size class in the thorough tier: every pair of option values
-    // appears (all 2^7 with indent 2, and a 16-row covering subset with indent 1 and 4)
+    // thinner option set for the largest size class of each tier: 16 rows of the boolean cube
+    // (default, all toggled, each single toggle, 7 mixed rows) x indent_step {2, 1, 4}
     let opts_reduced: Vec<Opt> = {
-        let mut v: Vec<Opt> = (0..128u8).map(|b| Opt::from_bits(b, 2)).collect();
-        for indent in [1usize, 4] {
+        let mut v: Vec<Opt> = Vec::new();
+        for indent in [2usize, 1, 4] {
             for b in [0u8, 0x7f, 0x55, 0x2a, 0x33, 0x4c, 0x0f, 0x70, 0x01, 0x02, 0x04, 0x08, 0x10, 0x20, 0x40, 0x3f] {
                 v.push(Opt::from_bits(b, indent));
             }
         }
         v
     };
-
     // ---- part A: exhaustive small trees
     let mut scope_parts = Vec::new();
     for (n, tys) in by_size.iter().enumerate() {
         if tys.is_empty() {
             continue;
         }
-        let reduced = tier == Tier::Thorough && n >= 5;
+        let reduced = n >= 4 && n == max_nodes;
         let use_opts: &[Opt] = if reduced { &opts_reduced } else { &opts };
         run.count(&format!("exhaustive/types_with_{n}_nodes"), tys.len() as u64);
         let incomplete = std::sync::atomic::AtomicU64::new(0);
         let pairs = std::sync::atomic::AtomicU64::new(0);
+        let cap = if n >= 5 { cap.min(4) } else { cap };
         par_range(tys.len(), |i| {
             let t = &tys[i];
             let (vals, complete) = ty::small_vals(t, cap);
@@ -467,7 +468,7 @@ fn main() {
         "a case (type, value, option vector) is non-trivial when the value tree has >= 2 nodes and the case was judged (held); distinct by hash(type, value, options)",
     )
     .exhaustive(format!(
-        "all types of the C13 shape grammar (vcore::ty::TyGrammar::full: 8 leaf types, 6 key types incl. tuple and struct keys, option/newtype/seq/map/struct/newtype-variant/struct-variant/tuple/tuple-struct/tuple-variant constructors) with <= {max_nodes} type nodes x small values (leaf pools incl. empty, multi-line, quote-needing and null-like strings, negative ints; seqs/maps of length 0..2) x option vectors [2^7 booleans x indent_step {{2,1,4}}]: {}",
+        "all types of the C13 shape grammar (vcore::ty::TyGrammar::full: 8 leaf types, 6 key types incl. tuple and struct keys, option/newtype/seq/map/struct/newtype-variant/struct-variant/tuple/tuple-struct/tuple-variant constructors) with <= {max_nodes} type nodes x small values (leaf pools incl. empty, multi-line, quote-needing and null-like strings, negative ints; seqs/maps of length 0..2) x option vectors [all 2^7 booleans x indent_step {{2,1,4}} = 384; the largest size class: 16 rows of the boolean cube (default, all toggled, each single toggle, 7 mixed) x 3 indent steps = 48]: {}",
         scope_parts.join("; ")
     ))
     .assume("raw saphyr-parser event stream is the ground truth for well-formedness and the number of documents")
